@@ -6,7 +6,7 @@ ends in this process, two disjoint temp directories play "local" and "remote"), 
     byte for byte, under the same relative names; everything else at the destination and the whole source untouched),
   * with the extracted Coq model model/Files.v (correspondence: resulting trees on both sides, raised exception class,
     and -- for single files -- the exact sequence of read results and write sizes seen by the file objects)."""
-import builtins, hashlib, os, random, shutil, signal, tempfile
+import builtins, hashlib, importlib.util, os, random, re, shutil, signal, subprocess, sys, tempfile, threading
 from harness import common as C
 
 META = {
@@ -16,12 +16,16 @@ META = {
                   "ceil(len/chunk) writes; copying into nothing yields exactly the pruned tree; copying into existing content overlays it and touches nothing else; "
                   "prune removes exactly the rejected names; upload and download are one function up to the side swap; the loop guard equals the caller's filter for every "
                   "filter that is true in a boolean context (for all filters once the code tests `filter is None`; refuted for falsy filter objects while it tests "
-                  "`not filter`). The loop statements, open modes, the filter guard and the side "
+                  "`not filter`); the omitted chunk_size (regenerated STREAM_CHUNK) is in the domain; upload_package with an explicit remotepath is upload without a filter. "
+                  "The loop statements, open modes, the filter guard and the side "
                   "of every filesystem call are regenerated from classic.py on every run and tied by computation; the extracted model is compared with the real "
-                  "functions over a real connection pair. Proof is the right level: the property quantifies over all trees, contents, chunk sizes and filters.",
+                  "functions over real connection pairs (peer on a thread: the side of every filesystem call is observed by thread identity and compared with the model's skeleton; "
+                  "peer in another process with another working directory and relative paths: a call on the wrong side lands in the wrong tree and fails the byte-wise oracle). Proof is the right level: the property quantifies over all trees, contents, chunk sizes and filters.",
     "level_note": "Trusted: Coq kernel, pygen, extraction + driver, harness. The OS file API (read returns up to n bytes and b'' only at EOF, 'wb' truncates, "
                   "listdir names are unique, makedirs/isdir/isfile) is modelled structurally and validated differentially; remote file objects are reached "
-                  "through proxies (C02); permissions, symlinks to existing targets, concurrent modification and chunk_size <= 0 are outside.",
+                  "through proxies (C02); permissions, symlinks to existing targets, concurrent modification and chunk_size <= 0 are outside; so is upload_package's "
+                  "remotepath=None branch (it writes into the peer's site-packages; its text is only snapshotted). Both rigs share one machine and one OS: os.path.join "
+                  "running on the right side is observed (thread rig) but a separator difference between two operating systems is not exercised.",
     "technique": "Coq proof (interpreted chunk loop, nested induction over trees); regenerated skeletons tied by reflexivity; differential correspondence of the extracted model "
                  "against real upload/download over a live classic connection",
     "gen": ["consts", "classic"],
@@ -58,6 +62,8 @@ def file_bytes(nd):
         return bytes(size)
     if pat == 2:
         return (b"line\r\nnext\n\x1a\r" * (size // 13 + 1))[:size]
+    if pat == 4:
+        return (b"# generated package\n#\n" * (size // 22 + 1))[:size]      # valid Python source at every length
     return bytes((seed + i) & 0xff for i in range(size))
 
 
@@ -392,6 +398,9 @@ def gen_case(r, i):
     chunk = r.choice(CHUNKS) if r.random() < 0.8 else r.randint(1, 300)
     if i % 9 == 0:
         chunk = r.choice([4096, 64000])
+    omit = i % 12 == 5                                          # chunk_size not passed: the default of the signature is used
+    if omit:
+        chunk = DEFAULT_CHUNK
     c = r.random()
     case = {"kind": "tree", "dir": r.choice(["upload", "download"]), "chunk": chunk, "ign": r.random() < 0.15, "dst": None}
     if c < 0.06:
@@ -401,6 +410,8 @@ def gen_case(r, i):
     else:
         case["src"] = gen_tree(r, chunk, r.choice([0, 1, 2, 3, 4]), [2])
     case["filter"] = gen_filter(r, case["src"])
+    if omit:
+        case["chunk"] = None
     e = r.random()
     if case["src"] is not None and case["src"][0] != "s" and e < 0.35:
         case["dst"] = gen_existing(r, case["src"], chunk, allow_conflict=(e < 0.08 and not is_falsy_object(case["filter"])))
@@ -408,16 +419,20 @@ def gen_case(r, i):
         case["dst"] = ["d", []]
     if r.random() < 0.02:
         case["chunk"] = 0                                       # outside the property; correspondence only
+    case["rig"] = "process" if i % 5 == 2 else "thread"
     return case
 
 
 def gen_file_case(r, i):
     chunk = CHUNKS[i % len(CHUNKS)] if i % 3 else r.randint(1, 1000)
+    omit = i % 10 == 4
+    if omit:
+        chunk = DEFAULT_CHUNK
     sizes = [0, 1, chunk - 1, chunk, chunk + 1, 2 * chunk - 1, 2 * chunk, 2 * chunk + 1, 3 * chunk, r.randint(0, 4 * chunk)]
     if chunk >= 4096:
         sizes = [0, 1, chunk - 1, chunk, chunk + 1, 2 * chunk, 2 * chunk + 1, r.randint(0, 2 * chunk)]
     size = sizes[(i // len(CHUNKS)) % len(sizes)] if r.random() < 0.85 else r.choice(sizes)
-    return {"kind": "file", "dir": r.choice(["upload", "download"]), "chunk": chunk,
+    return {"kind": "file", "dir": r.choice(["upload", "download"]), "chunk": None if omit else chunk, "rig": "process" if i % 5 == 2 else "thread",
             "src": ["f", r.getrandbits(32), max(0, size), r.choice([0, 0, 1, 2, 3])],
             "dst": r.choice([None, None, ["f", r.getrandbits(32), r.choice([0, 1, size + 5, 3 * chunk + 1]), 3]])}
 
@@ -432,7 +447,11 @@ def _alarm(*a):
 
 
 class Rig:
-    """one classic connection pair + a scratch directory"""
+    """one classic connection pair in this process (rpyc.classic.connect_thread) + a scratch directory.
+    The peer's calls run on the server thread, the local ones on the main thread: that is how the side of every
+    filesystem call is observed here (Tracer)."""
+    kind = "thread"
+    total_hangs = 0
 
     def __init__(self):
         self.root = tempfile.mkdtemp(prefix="c20-")
@@ -457,24 +476,35 @@ class Rig:
         shutil.rmtree(self.root, ignore_errors=True)
 
     def fresh(self):
+        """scratch space of one case: absolute directories of the two sides and the prefixes to hand to rpyc"""
         self.n += 1
         d = os.path.join(self.root, "k%d" % self.n)
         os.makedirs(os.path.join(d, "L"))
         os.makedirs(os.path.join(d, "R"))
-        return d
+        return {"rm": [d], "labs": os.path.join(d, "L"), "rabs": os.path.join(d, "R"),
+                "larg": os.path.join(d, "L"), "rarg": os.path.join(d, "R")}
+
+    def enter(self):
+        pass
+
+    def leave(self):
+        pass
 
     def guarded(self, fn):
         """(outcome, exception-name) with a watchdog"""
-        if self.hangs >= MAX_HANGS:          # already reported; do not spend the budget on more of the same
+        if Rig.total_hangs >= MAX_HANGS:     # already reported; do not spend the budget on more of the same
             return ("skipped", None)
         old = signal.signal(signal.SIGALRM, _alarm)
         signal.setitimer(signal.ITIMER_REAL, CASE_TIMEOUT, 0.5)     # re-fires in case library code swallows the first one
+        self.enter()
         try:
             fn()
             return ("ok", None)
         except Hang:
             signal.setitimer(signal.ITIMER_REAL, 0)
             self.hangs += 1
+            Rig.total_hangs += 1
+            self.leave()
             self.connect()
             return ("hang", None)
         except OSError as e:
@@ -484,6 +514,78 @@ class Rig:
         finally:
             signal.setitimer(signal.ITIMER_REAL, 0)
             signal.signal(signal.SIGALRM, old)
+            self.leave()
+
+
+_SERVER = r"""
+import sys
+sys.dont_write_bytecode = True
+sys.path.insert(0, sys.argv[1])
+from rpyc.utils.server import OneShotServer
+from rpyc.utils.classic import SlaveService
+s = OneShotServer(SlaveService, hostname="127.0.0.1", port=0)
+print(s.port, flush=True)
+s.start()
+"""
+
+
+class ProcRig(Rig):
+    """the peer is another process whose working directory is <root>/R; this process works in <root>/L while a call runs;
+    all paths handed to rpyc are RELATIVE.  A filesystem call made on the wrong side therefore hits the other directory
+    tree and the byte-wise oracle sees it (a file uploaded 'to the peer' that lands on the local side is missing there)."""
+    kind = "process"
+
+    def __init__(self):
+        self.proc = None
+        self.cwd0 = None
+        super().__init__()
+
+    def connect(self):
+        self.stop()
+        os.makedirs(os.path.join(self.root, "L"), exist_ok=True)
+        os.makedirs(os.path.join(self.root, "R"), exist_ok=True)
+        self.proc = subprocess.Popen([sys.executable, "-c", _SERVER, C.REPO], cwd=os.path.join(self.root, "R"),
+                                     stdout=subprocess.PIPE, stderr=subprocess.DEVNULL, stdin=subprocess.DEVNULL)
+        port = int(self.proc.stdout.readline())
+        self.conn = rpyc.classic.connect("127.0.0.1", port)
+
+    def stop(self):
+        if self.conn is not None:
+            try:
+                self.conn.close()
+            except Exception:
+                pass
+            self.conn = None
+        if self.proc is not None:
+            try:
+                self.proc.kill()
+                self.proc.wait(10)
+            except Exception:
+                pass
+            self.proc = None
+
+    def close(self):
+        self.leave()
+        self.stop()
+        shutil.rmtree(self.root, ignore_errors=True)
+
+    def fresh(self):
+        self.n += 1
+        k = "k%d" % self.n
+        l, rm = os.path.join(self.root, "L", k), os.path.join(self.root, "R", k)
+        os.makedirs(l)
+        os.makedirs(rm)
+        return {"rm": [l, rm], "labs": l, "rabs": rm, "larg": k, "rarg": k}
+
+    def enter(self):
+        if self.cwd0 is None:
+            self.cwd0 = os.getcwd()
+            os.chdir(os.path.join(self.root, "L"))
+
+    def leave(self):
+        if self.cwd0 is not None:
+            os.chdir(self.cwd0)
+            self.cwd0 = None
 
 
 class RecFile:
@@ -509,6 +611,65 @@ class RecFile:
         self.f.close()
 
 
+MAIN_THREAD = threading.main_thread()
+
+
+class Tracer:
+    """while active (thread rig only): every open/listdir/makedirs/isdir/isfile/join on a path of the case is recorded
+    with the thread it ran on (main = local side, anything else = the peer) and files are wrapped to log read/write calls"""
+
+    def __init__(self, sp, dp):
+        self.sp, self.dp = sp, dp
+        self.ops = []       # (tag, side it ran on)
+        self.log = []       # RecFile events
+        self.saved = []
+
+    def _tag(self, op, p):
+        src = p == self.sp or p.startswith(self.sp + os.sep)
+        if op == "open":
+            return "open_src" if src else "open_dst"
+        if op == "join":
+            return "join_src" if src else "join_dst"
+        if op == "isfile":
+            return "probe" if src else "isfile_dst"
+        if op == "isdir":
+            return "probe" if src else "mk"
+        if op == "listdir":
+            return "list" if src else "listdir_dst"
+        return "mk" if not src else "makedirs_src"
+
+    def _mine(self, p):
+        return type(p) is str and (p == self.sp or p == self.dp or p.startswith(self.sp + os.sep) or p.startswith(self.dp + os.sep))
+
+    def _wrap(self, op, orig):
+        def w(p, *a, **k):
+            if self._mine(p):
+                self.ops.append((self._tag(op, p), "L" if threading.current_thread() is MAIN_THREAD else "R"))
+            return orig(p, *a, **k)
+        return w
+
+    def __enter__(self):
+        real_open = builtins.open
+
+        def rec_open(p, mode="r", *a, **k):
+            f = real_open(p, mode, *a, **k)
+            if self._mine(p):
+                self.ops.append((self._tag("open", p), "L" if threading.current_thread() is MAIN_THREAD else "R"))
+                return RecFile(f, "src" if self._tag("open", p) == "open_src" else "dst", self.log)
+            return f
+        for mod, name, op in ((builtins, "open", None), (os, "listdir", "listdir"), (os, "makedirs", "makedirs"),
+                              (os.path, "isdir", "isdir"), (os.path, "isfile", "isfile"), (os.path, "join", "join")):
+            orig = getattr(mod, name)
+            self.saved.append((mod, name, orig))
+            setattr(mod, name, rec_open if op is None else self._wrap(op, orig))
+        return self
+
+    def __exit__(self, *a):
+        for mod, name, orig in self.saved:
+            setattr(mod, name, orig)
+        self.saved = []
+
+
 def gen_guard():
     """which filter guard the current tree has (follows the generated skeleton; falls back to the truthiness test)"""
     try:
@@ -518,49 +679,104 @@ def gen_guard():
         return 0
 
 
+def default_chunk():
+    """the chunk size used when chunk_size is omitted, as regenerated from rpyc/core/consts.py"""
+    try:
+        m = re.search(r"Definition STREAM_CHUNK : Z := \((\d+)\)%Z", open(C.COQ + "/gen/Gen_consts.v").read())
+        return int(m.group(1))
+    except (OSError, AttributeError):
+        return 64000
+
+
+DEFAULT_CHUNK = default_chunk()
+
+
+def eff_chunk(case):
+    return DEFAULT_CHUNK if case["chunk"] is None else case["chunk"]
+
+
+def import_package(path, name):
+    spec = importlib.util.spec_from_file_location(name, os.path.join(path, "__init__.py"), submodule_search_locations=[path])
+    mod = importlib.util.module_from_spec(spec)
+    spec.loader.exec_module(mod)
+    return mod
+
+
 def run_tree_impl(rig, case):
-    d = rig.fresh()
+    """-> src0, dst0, outcome, src1, dst1, tracer-or-None (snapshots by absolute path; rpyc gets the rig's path prefixes)"""
+    w = rig.fresh()
     up = case["dir"] == "upload"
-    sp = os.path.join(d, "L" if up else "R", "src")
-    dp = os.path.join(d, "R" if up else "L", "dst")
+    sabs, sarg = (w["labs"], w["larg"]) if up else (w["rabs"], w["rarg"])
+    dabs, darg = (w["rabs"], w["rarg"]) if up else (w["labs"], w["larg"])
+    sp, dp = os.path.join(sabs, "src"), os.path.join(dabs, "dst")
+    spa, dpa = os.path.join(sarg, "src"), os.path.join(darg, "dst")
     if case["src"] is not None:
         build(sp, case["src"])
     if case["dst"] is not None:
         build(dp, case["dst"])
     src0, dst0 = snap(sp), snap(dp)
-    fn = classic.upload if up else classic.download
-    out = rig.guarded(lambda: fn(rig.conn, sp, dp, filter=py_filter(case["filter"]), ignore_invalid=case["ign"],
-                                 chunk_size=case["chunk"]))
+    kw = {} if case["chunk"] is None else {"chunk_size": case["chunk"]}
+    if case["kind"] == "package":
+        mod = import_package(sp, "c20pkg_%s_%d" % (rig.kind, rig.n))
+        call = lambda: classic.upload_package(rig.conn, mod, dpa, **kw)
+    else:
+        fn = classic.upload if up else classic.download
+        call = lambda: fn(rig.conn, spa, dpa, filter=py_filter(case["filter"]), ignore_invalid=case["ign"], **kw)
+    tr = None
+    if rig.kind == "thread":
+        tr = Tracer(sp, dp)
+        with tr:
+            out = rig.guarded(call)
+    else:
+        out = rig.guarded(call)
     src1, dst1 = snap(sp), snap(dp)
-    shutil.rmtree(d, ignore_errors=True)
-    return src0, dst0, out, src1, dst1
+    for d in w["rm"]:
+        shutil.rmtree(d, ignore_errors=True)
+    return src0, dst0, out, src1, dst1, tr
 
 
 def run_file_impl(rig, case):
-    d = rig.fresh()
+    w = rig.fresh()
     up = case["dir"] == "upload"
-    sp = os.path.join(d, "L" if up else "R", "src.bin")
-    dp = os.path.join(d, "R" if up else "L", "dst.bin")
+    sabs, sarg = (w["labs"], w["larg"]) if up else (w["rabs"], w["rarg"])
+    dabs, darg = (w["rabs"], w["rarg"]) if up else (w["labs"], w["larg"])
+    sp, dp = os.path.join(sabs, "src.bin"), os.path.join(dabs, "dst.bin")
+    spa, dpa = os.path.join(sarg, "src.bin"), os.path.join(darg, "dst.bin")
     build(sp, case["src"])
     if case["dst"] is not None:
         build(dp, case["dst"])
-    log = []
-    real_open = builtins.open
-
-    def rec_open(path, mode="r", *a, **k):
-        f = real_open(path, mode, *a, **k)
-        if path == sp or path == dp:
-            return RecFile(f, "src" if path == sp else "dst", log)
-        return f
     fn = classic.upload_file if up else classic.download_file
-    builtins.open = rec_open
-    try:
-        out = rig.guarded(lambda: fn(rig.conn, sp, dp, chunk_size=case["chunk"]))
-    finally:
-        builtins.open = real_open
+    kw = {} if case["chunk"] is None else {"chunk_size": case["chunk"]}
+    call = lambda: fn(rig.conn, spa, dpa, **kw)
+    tr = None
+    if rig.kind == "thread":
+        tr = Tracer(sp, dp)
+        with tr:
+            out = rig.guarded(call)
+    else:
+        out = rig.guarded(call)
     src1, dst1 = snap(sp), snap(dp)
-    shutil.rmtree(d, ignore_errors=True)
-    return out, src1, dst1, log
+    for d in w["rm"]:
+        shutil.rmtree(d, ignore_errors=True)
+    return out, src1, dst1, tr
+
+
+def check_sides(ctx, table, case, tr):
+    """the side every filesystem call ran on (by thread) against the model's skeleton table, and the plain reading:
+    the source is touched only on the source side, the destination only on the destination side"""
+    if tr is None or table is None:
+        return
+    up = case["dir"] == "upload"
+    want = table["upload" if up else "download"]
+    seen = {}
+    for tag, side in tr.ops:
+        seen.setdefault(tag, set()).add(side)
+    for tag, sides in sorted(seen.items()):
+        if tag not in want or sides != {want[tag]}:
+            ctx.tie_broken("correspondence:side", "%s: %s ran on side(s) %s, the model's skeleton says %s"
+                           % (case["dir"], tag, sorted(sides), want.get(tag, "<no such call>")))
+            return
+    ctx.count("sides-validated")
 
 
 # ------------------------------------------------------------------ checking
@@ -568,22 +784,30 @@ def small(case):
     return {k: (v if k not in ("src", "dst") else brief(canon_of_case(v))) for k, v in case.items()}
 
 
-def check_files(ctx, model, rig, cases):
-    res = model.batch([["copyfile", c["chunk"], file_bytes(c["src"])] for c in cases]) if model else None
+def chunk_text(case):
+    return "chunk_size omitted (default %d)" % DEFAULT_CHUNK if case["chunk"] is None else "chunk_size=%d" % case["chunk"]
+
+
+def check_files(ctx, model, rigs, cases, table=None):
+    res = model.batch([["copyfile", eff_chunk(c), file_bytes(c["src"])] for c in cases]) if model else None
     for i, case in enumerate(cases):
         data = file_bytes(case["src"])
-        chunk = case["chunk"]
-        out, src1, dst1, log = run_file_impl(rig, case)
+        chunk = eff_chunk(case)
+        rig = rigs[case.get("rig", "thread")]
+        out, src1, dst1, tr = run_file_impl(rig, case)
         if out[0] == "skipped":
             ctx.count("skipped-after-hangs")
             continue
-        key = ("file", case["dir"], chunk, hashlib.sha1(data).hexdigest(), case["dst"] is not None)
+        key = ("file", case["dir"], case["chunk"], hashlib.sha1(data).hexdigest(), case["dst"] is not None, rig.kind)
         ctx.case(key, nontrivial=len(data) >= 1, sample=small(case))
         rel = "empty" if not data else ("<chunk" if len(data) < chunk else ("multiple" if len(data) % chunk == 0 else
                                                                               ("multiple+1" if len(data) % chunk == 1 else
                                                                                ("multiple-1" if len(data) % chunk == chunk - 1 else "between"))))
         ctx.count("file:size:" + rel)
         ctx.count("file:" + case["dir"])
+        ctx.count("file:rig:" + rig.kind)
+        if case["chunk"] is None:
+            ctx.count("file:chunk:default")
         # --- oracle: the destination file is the source file, byte for byte; the source is untouched
         if out[0] != "ok":
             ctx.violation("file:%s:%s" % (case["dir"], "hang" if out[0] == "hang" else "unexpected-exception:" + str(out[1])), case,
@@ -593,11 +817,12 @@ def check_files(ctx, model, rig, cases):
             ctx.violation("file:%s:content-mismatch" % case["dir"], case,
                           observed={"len": None if got is None else len(got), "sha1": None if got is None else hashlib.sha1(got).hexdigest()},
                           expected={"len": len(data), "sha1": hashlib.sha1(data).hexdigest()},
-                          what="%s_file with chunk_size=%d of a %d-byte file does not reproduce it" % (case["dir"], chunk, len(data)))
+                          what="%s_file with %s of a %d-byte file does not reproduce it at the destination side%s"
+                               % (case["dir"], chunk_text(case), len(data), " (peer in another process and directory)" if rig.kind == "process" else ""))
         if src1 != ("f", data):
             ctx.violation("file:%s:source-modified" % case["dir"], case, observed=brief(src1), expected="file[%d]" % len(data),
                           what="the source file changed")
-        # --- correspondence: bytes, write sizes, read results
+        # --- correspondence: bytes, write sizes, read results, read arguments, sides
         if res is not None:
             ctx.model_traces += 1
             m = res[i]
@@ -605,42 +830,51 @@ def check_files(ctx, model, rig, cases):
                 ctx.tie_broken("correspondence:copyfile", "model says %r for chunk %d size %d" % (m[0], chunk, len(data)))
                 continue
             mout, mws, mrs = m[1]
-            iws = [e[2] for e in log if e[0] == "w" and e[1] == "dst"]
-            irs = [e[3] for e in log if e[0] == "r" and e[1] == "src"]
-            iargs = {e[2] for e in log if e[0] == "r"}
-            bad_side = [e for e in log if (e[0] == "w" and e[1] != "dst") or (e[0] == "r" and e[1] != "src")]
             igot = dst1[1] if dst1 and dst1[0] == "f" else None
-            if out[0] != "ok" or igot != mout or iws != mws or irs != mrs or bad_side or (iargs - {chunk}):
-                ctx.tie_broken("correspondence:copyfile", "%s chunk %d size %d: impl outcome %r writes %r reads %r read-args %r; model writes %r reads %r; bytes equal: %r"
-                               % (case["dir"], chunk, len(data), out, iws[:6], irs[:6], sorted(iargs)[:4], mws[:6], mrs[:6], igot == mout))
+            if out[0] != "ok" or igot != mout:
+                ctx.tie_broken("correspondence:copyfile", "%s %s size %d: impl outcome %r, bytes equal: %r" % (case["dir"], chunk_text(case), len(data), out, igot == mout))
+            elif tr is not None:
+                log = tr.log
+                iws = [e[2] for e in log if e[0] == "w" and e[1] == "dst"]
+                irs = [e[3] for e in log if e[0] == "r" and e[1] == "src"]
+                iargs = {e[2] for e in log if e[0] == "r"}
+                bad_side = [e for e in log if (e[0] == "w" and e[1] != "dst") or (e[0] == "r" and e[1] != "src")]
+                if iws != mws or irs != mrs or bad_side or (iargs - {chunk}):
+                    ctx.tie_broken("correspondence:copyfile", "%s %s size %d: impl writes %r reads %r read-args %r; model writes %r reads %r"
+                                   % (case["dir"], chunk_text(case), len(data), iws[:6], irs[:6], sorted(iargs)[:4], mws[:6], mrs[:6]))
+                check_sides(ctx, table, case, tr)
 
 
-def check_trees(ctx, model, rig, cases):
+def check_trees(ctx, model, rigs, cases, table=None):
     runs = []
     mcases = []
     for case in cases:
-        src0, dst0, out, src1, dst1 = run_tree_impl(rig, case)
-        runs.append((src0, dst0, out, src1, dst1))
+        rig = rigs[case.get("rig", "thread")]
+        src0, dst0, out, src1, dst1, tr = run_tree_impl(rig, case)
+        runs.append((src0, dst0, out, src1, dst1, tr, rig.kind))
         up = case["dir"] == "upload"
         l, rm = (src0, dst0) if up else (dst0, src0)
-        mcases.append(["transfer", gen_guard(), 0 if up else 1, case["chunk"], 1 if case["ign"] else 0, sx_filter(case["filter"]),
+        mcases.append(["transfer", gen_guard(), 0 if up else 1, eff_chunk(case), 1 if case["ign"] else 0, sx_filter(case["filter"]),
                        sx_of_canon(l), sx_of_canon(rm)])
     res = model.batch(mcases) if model else None
     for i, case in enumerate(cases):
-        src0, dst0, out, src1, dst1 = runs[i]
+        src0, dst0, out, src1, dst1, tr, rigkind = runs[i]
         if out[0] == "skipped":
             ctx.count("skipped-after-hangs")
             continue
         up = case["dir"] == "upload"
-        chunk, flt = case["chunk"], case["filter"]
+        chunk, flt = eff_chunk(case), case["filter"]
+        kind = case["kind"]
+        fname = "upload_package" if kind == "package" else case["dir"]
         topkind = "missing" if src0 is None else {"f": "file", "d": "dir", "s": "special"}[src0[0]]
-        ctx.case(("tree", case["dir"], chunk, repr(flt), case["ign"], digest(src0), digest(dst0)),
+        ctx.case((kind, case["dir"], case["chunk"], repr(flt), case["ign"], digest(src0), digest(dst0), rigkind),
                  nontrivial=(count_entries(src0) >= 2 or (topkind == "file" and len(src0[1]) >= 1)), sample=small(case))
-        ctx.count("tree:" + case["dir"])
+        ctx.count("%s:%s" % (kind, case["dir"]))
+        ctx.count("tree:rig:" + rigkind)
         ctx.count("tree:top:" + topkind)
         ctx.count("tree:filter:" + (flt[0] if flt[0] != "obj" else ("object-truthy:" if flt[1] else "object-falsy:") + flt[2][0]))
         ctx.count("tree:dst:" + ("absent" if dst0 is None else "existing"))
-        ctx.count("tree:chunk:" + (str(chunk) if chunk in CHUNKS or chunk == 0 else "random"))
+        ctx.count("tree:chunk:" + ("default" if case["chunk"] is None else str(chunk) if chunk in CHUNKS or chunk == 0 else "random"))
         # --- oracle
         in_domain = chunk >= 1 and topkind in ("file", "dir")
         conflict = False
@@ -651,9 +885,9 @@ def check_trees(ctx, model, rig, cases):
                 conflict = True
                 ctx.count("tree:excluded:file-meets-directory")
         if in_domain and not conflict:
-            where = "%s chunk_size=%d filter=%s" % (case["dir"], chunk, flt[0])
+            where = "%s %s filter=%s%s" % (fname, chunk_text(case), flt[0], " (peer in another process and directory)" if rigkind == "process" else "")
             if out[0] != "ok":
-                ctx.violation("tree:%s:%s" % (case["dir"], "hang" if out[0] == "hang" else "unexpected-exception:" + str(out[1])), case,
+                ctx.violation("tree:%s:%s" % (fname, "hang" if out[0] == "hang" else "unexpected-exception:" + str(out[1])), case,
                               observed=out, expected="returns", what=where + " raised/hung on a valid tree")
             else:
                 d = first_difference(exp, dst1)
@@ -664,11 +898,11 @@ def check_trees(ctx, model, rig, cases):
                                        "copies the entries the filter rejects: `not filter or filter(fn)` tests the object's truth value instead of `filter is None`"
                                        % case["dir"])
                 elif d:
-                    ctx.violation("tree:%s:%s" % (case["dir"], d[0]), case, observed={"at": d[1], "destination": brief(dst1)},
+                    ctx.violation("tree:%s:%s" % (fname, d[0]), case, observed={"at": d[1], "destination": brief(dst1)},
                                   expected={"destination": brief(exp)},
                                   what=where + ": destination differs from the filtered source at " + (d[1] or "/"))
             if src1 != src0:
-                ctx.violation("tree:%s:source-modified" % case["dir"], case, observed=brief(src1), expected=brief(src0),
+                ctx.violation("tree:%s:source-modified" % fname, case, observed=brief(src1), expected=brief(src0),
                               what=where + ": the source tree changed")
         else:
             ctx.count("tree:outside-domain")
@@ -683,6 +917,13 @@ def check_trees(ctx, model, rig, cases):
                 if out[0] != "ok" or ml != il or mr != ir:
                     dd = first_difference(mr if up else ml, dst1)
                     ctx.tie_broken("correspondence:transfer", "%s: impl %r, model ok; first difference %r" % (small(case), out, dd))
+                elif tr is not None:
+                    iargs = {e[2] for e in tr.log if e[0] == "r"}
+                    wrong = [e for e in tr.log if (e[0] == "w" and e[1] != "dst") or (e[0] == "r" and e[1] != "src")]
+                    if (iargs - {chunk}) or wrong:
+                        ctx.tie_broken("correspondence:transfer", "%s: read arguments %r (expected only %d), wrong-direction file calls %r"
+                                       % (small(case), sorted(iargs)[:4], chunk, wrong[:3]))
+                    check_sides(ctx, table, case, tr)
             elif mk == "exc":
                 want = {"OtherError": "OSError"}.get(m[1].decode(), m[1].decode())
                 if out != ("exc", want):
@@ -710,45 +951,81 @@ def check_prune(ctx, model, r, n):
             break
 
 
+def sides_table(model):
+    """the model's skeleton: which side each filesystem call of upload* / download* runs on"""
+    if not model:
+        return None
+    g = gen_guard()
+    res = model.batch([["sides", g, 0], ["sides", g, 1]])
+    out = {}
+    for nm, rows in zip(("upload", "download"), res):
+        if not isinstance(rows, list) or not rows or not isinstance(rows[0], list) or len(rows[0]) != 2:
+            return None
+        out[nm] = {k.decode(): ("R" if v else "L") for k, v in rows}
+    return out
+
+
+def gen_package_case(r, i):
+    chunk = r.choice(CHUNKS) if r.random() < 0.7 else r.randint(1, 300)
+    tree = gen_tree(r, chunk, r.choice([0, 1, 2]), [1], specials=False)
+    ents = [e for e in tree[1] if e[0] != "__init__.py"]
+    ents.insert(r.randint(0, len(ents)), ["__init__.py", ["f", r.getrandbits(32), gen_size(r, chunk, False), 4]])
+    return {"kind": "package", "dir": "upload", "chunk": None if i % 4 == 0 else chunk, "ign": False, "filter": ["none"],
+            "src": ["d", ents], "dst": None, "rig": "process" if i % 2 else "thread"}
+
+
 def run(ctx):
     r = ctx.rng
     model = C.Model("files")
     model = model if model.available() else None
-    n_file, n_tree, n_prune = (420, 700, 300) if ctx.quick else (6000, 9000, 4000)
-    ctx.coverage_extra["rule"] = ("file cases: every chunk in {1,2,3,7,64,4096,64000} and random chunks x sizes {0,1,c-1,c,c+1,2c-1,2c,2c+1,3c,random}, "
+    n_file, n_tree, n_prune, n_pkg = (420, 700, 300, 24) if ctx.quick else (6000, 9000, 4000, 400)
+    ctx.coverage_extra["rule"] = ("file cases: every chunk in {1,2,3,7,64,4096,64000}, random chunks and the omitted chunk_size (default) x sizes {0,1,c-1,c,c+1,2c-1,2c,2c+1,3c,random}, "
                                   "upload_file/download_file with instrumented file objects; tree cases: random trees (depth <= 4, fan-out <= 5, empty dirs and files, "
                                   "fifos/dangling links, unicode/space/dot names, sizes around multiples of the chunk), filters None / functions reject/only/suffix/maxlen / "
-                                  "callable objects with a truth value (true or false), "
+                                  "callable objects with a truth value (true or false), chunk_size given or omitted, "
                                   "35% into an overlapping existing destination, malformed: missing/special top, chunk 0, file-vs-directory conflicts; "
-                                  "non-trivial = file of >= 1 byte, or tree with >= 2 entries; distinct by (direction, chunk, filter, content digests)")
-    rig = Rig()
-    deep = ["d", []]
-    for _ in range(4):
-        deep = ["d", [["e", deep]]]
+                                  "upload_package of generated packages with an explicit remotepath; "
+                                  "two rigs: peer on a thread of this process (every filesystem call's side observed by thread and compared with the model's skeleton) and "
+                                  "peer in another process with another working directory and relative paths (a call on the wrong side lands in the wrong tree: ~20% of cases); "
+                                  "non-trivial = file of >= 1 byte, or tree with >= 2 entries; distinct by (direction, chunk, filter, content digests, rig)")
+    rigs = {"thread": Rig(), "process": None}
     try:
-        fixed = [
+        rigs["process"] = ProcRig()
+        table = sides_table(model)
+        if model and table is None:
+            ctx.tie_broken("correspondence:side", "the model did not return its sides table")
+        deep = ["d", []]
+        for _ in range(4):
+            deep = ["d", [["e", deep]]]
+        base = [
             {"kind": "tree", "dir": "upload", "chunk": 3, "ign": False, "filter": ["suffix", ".pyc"], "dst": None,
              "src": ["d", [["a", ["d", [["empty", ["f", 1, 0, 0]], ["one", ["f", 2, 1, 0]], ["b", ["d", [["exact", ["f", 3, 9, 0]]]]],
                                          ["fifo", ["s", "fifo"]], ["skip.pyc", ["f", 4, 7, 0]]]]],
                            ["emptydir", ["d", []]], ["skip.pyc", ["d", [["inner", ["f", 5, 7, 0]]]]], ["f", ["f", 6, 7, 2]]]]},
             {"kind": "tree", "dir": "download", "chunk": 64000, "ign": False, "filter": ["none"], "dst": None,
              "src": ["d", [["big", ["f", 7, 128001, 0]], ["e", deep]]]},
+            {"kind": "tree", "dir": "upload", "chunk": None, "ign": False, "filter": ["none"], "dst": None,
+             "src": ["d", [["big", ["f", 13, 2 * DEFAULT_CHUNK + 1, 0]], ["exact", ["f", 14, DEFAULT_CHUNK, 0]], ["sub", ["d", [["x", ["f", 15, DEFAULT_CHUNK - 1, 2]]]]]]]},
             {"kind": "tree", "dir": "upload", "chunk": 1, "ign": False, "filter": ["only", []], "dst": None, "src": ["d", [["a", ["f", 8, 3, 0]]]]},
             {"kind": "tree", "dir": "download", "chunk": 2, "ign": False, "filter": ["none"], "src": ["f", 9, 5, 0], "dst": ["f", 10, 50, 1]},
             {"kind": "tree", "dir": "upload", "chunk": 5, "ign": False, "filter": ["obj", False, ["only", []]], "dst": None,
              "src": ["d", [["secret.key", ["f", 11, 6, 0]], ["sub", ["d", [["x", ["f", 12, 1, 0]]]]]]]},
         ]
-        check_trees(ctx, model, rig, fixed)
-        check_files(ctx, model, rig, [gen_file_case(r, i) for i in range(n_file)])
+        fixed = [dict(c, rig=k) for c in base for k in ("thread", "process")]
+        check_trees(ctx, model, rigs, fixed, table)
+        check_trees(ctx, model, rigs, [gen_package_case(r, i) for i in range(n_pkg)], table)
+        check_files(ctx, model, rigs, [gen_file_case(r, i) for i in range(n_file)], table)
         step = 500
         done = 0
         while done < n_tree:
             k = min(step, n_tree - done)
-            check_trees(ctx, model, rig, [gen_case(r, done + j) for j in range(k)])
+            check_trees(ctx, model, rigs, [gen_case(r, done + j) for j in range(k)], table)
             done += k
         check_prune(ctx, model, r, n_prune)
     finally:
-        rig.close()
+        for g in rigs.values():
+            if g is not None:
+                g.close()
 
 
 def replay(ctx, rep):
@@ -757,11 +1034,15 @@ def replay(ctx, rep):
         return
     model = C.Model("files")
     model = model if model.available() else None
-    rig = Rig()
+    rigs = {"thread": Rig(), "process": None}
     try:
+        rigs["process"] = ProcRig()
+        table = sides_table(model)
         if case.get("kind") == "file":
-            check_files(ctx, model, rig, [case])
+            check_files(ctx, model, rigs, [case], table)
         else:
-            check_trees(ctx, model, rig, [case])
+            check_trees(ctx, model, rigs, [case], table)
     finally:
-        rig.close()
+        for g in rigs.values():
+            if g is not None:
+                g.close()
